@@ -221,7 +221,10 @@ def _order(components, label):
                             st.OperatingHours = j
             except Exception as ex:  # noqa: BLE001
                 errors.append(repr(ex))
-        n0 = len(lp.sent)
+        commits = []      # every commit in the window, including the role provider's own (alert system self check)
+        with lp.pmdib.mdib_lock:
+            properties.strongbind(lp.pmdib, transaction=lambda tr: commits.append(lp.pmdib.mdib_version))
+            n0 = len(lp.sent)
         threads = [threading.Thread(target=writer, args=(k,)) for k in range(n_threads)]
         for t in threads:
             t.start()
@@ -231,12 +234,17 @@ def _order(components, label):
         time.sleep(0.2)
         if errors:
             bad.append({'key': f'writer-failed:{label}', 'detail': errors[0][:300]})
-        sent_versions = [mvg.mdib_version for _, _, mvg, _ in lp.sent[n0:]]
+        with lp.pmdib.mdib_lock:
+            sent_versions = [mvg.mdib_version for _, _, mvg, _ in lp.sent[n0:]]
+            commit_versions = list(commits)
         cases += len(sent_versions)
         if sent_versions != sorted(sent_versions):
             bad.append({'key': f'send-order:{label}', 'detail': f'provider handed reports to the subscription manager in version order {sent_versions[:20]}'})
-        if len(set(sent_versions)) != n_threads * n_tx:
-            bad.append({'key': f'reports-per-commit:{label}', 'detail': f'{len(set(sent_versions))} distinct report versions for {n_threads * n_tx} commits'})
+        if len(commit_versions) < n_threads * n_tx:
+            bad.append({'key': f'commits-missing:{label}', 'detail': f'{len(commit_versions)} commits observed for {n_threads * n_tx} transactions'})
+        if set(sent_versions) != set(commit_versions):
+            diff = sorted(set(sent_versions) ^ set(commit_versions))[:5]
+            bad.append({'key': f'reports-per-commit:{label}', 'detail': f'report versions and commit versions differ: {diff}'})
         for i, rec in enumerate(received):
             versions = [v for _, v in rec]
             cases += len(versions)
